@@ -39,7 +39,7 @@ var (
 	qualVals = []string{"q0", "q1", "q2", "Q0", "Q1"}
 	// what a component may declare as its qualifier: any string, also one with blanks in it
 	// (which no requested set written in a tag can contain)
-	instQualVals = []string{"q0", "q1", "q2", "Q0", "Q1", "q0", "q1", "q2", "q0 q1", "q1 q2", "q2 Q0"}
+	instQualVals = []string{"q0", "q1", "q2", "Q0", "Q1", "q0", "q1", "q2", "q0 q1", "q1 q2", "q2 Q0", ""}
 	kindVals     = []string{"ka", "kb"}
 	funcVals     = []string{"SimFnA", "SimFnB"}
 )
@@ -510,6 +510,32 @@ func genGraph(r rng, seed uint64, id, family string, k Knobs) *sdl.Program {
 			t.Points = append(t.Points, pt)
 		}
 	}
+	// an injection point declared as an embedded interface that carries the tag itself (only in
+	// types that declare the interface's method themselves: the promoted one stays shadowed)
+	if family != FamEmbed {
+		for _, t := range p.Types {
+			if t.Zero || sdl.IsAlt(t.Name) || len(t.Ifaces) == 0 || !r.p(0.07) {
+				continue
+			}
+			q := pick(r, t.Ifaces)
+			if p.IsSealed(q) {
+				continue
+			}
+			pt := &sdl.Point{Field: "FE", Kind: sdl.KIface, Iface: q, Sel: sdl.SelType, Anon: true, GoField: IfaceName(p, q), Optional: r.p(0.4)}
+			if r.p(0.5) {
+				var pool []*sdl.Instance
+				for _, i := range p.Instances {
+					if hasIface(p.TypeByName(i.Type), q) && i.Type != t.Name {
+						pool = append(pool, i)
+					}
+				}
+				if len(pool) != 0 {
+					pt.Sel, pt.Name = sdl.SelName, p.NameOf(pick(r, pool))
+				}
+			}
+			t.Points = append(t.Points, pt)
+		}
+	}
 	repairSatisfiable(r, p, k)
 	// a share of the initialising components look another component up by name from inside
 	// Init / AfterPropertiesSet (cycles closed during initialization)
@@ -706,6 +732,11 @@ func genPoint(r rng, p *sdl.Program, holder *sdl.Type, k Knobs, field string) *s
 		}
 		if r.p(0.15) {
 			pt.Quals = pick(r, [][]string{{"q0", "q1"}, {"q1", "q2"}, {"q2", "Q0"}})
+		}
+		if r.p(0.1) {
+			// the empty string as a requested value (`qualifier=`, or a trailing blank): it selects
+			// components that DECLARE the empty qualifier, not those that declare none
+			pt.Quals = pick(r, [][]string{{""}, {"q0", ""}, {"q1", ""}})
 		}
 	}
 	return pt
